@@ -167,10 +167,12 @@ def run(tier):
     run = Run(PROP, tier, 'proof')
     specs.selfcheck()
     h = build()
+    mono = h.monomorphise(['f32', 'f64'], bound='<S: BaseFloat>', kinds=None, method_syntax='only', soft=True)
     S, inv, meta = facts.extract(PROP, h.src())
-    report_dropped(run, meta)
+    report_dropped(run, meta, h)
     run_specs(run, S, h, custom={'lazy': check_lazy, 'normalize_to': check_normalize_to, 'project_on': check_project_on, 'angle': check_angle})
     run.floor('roots', len(run.roots), len(h.specs))
+    run.notes['monomorphic_method_syntax_roots'] = len([n for n in mono if n in run.roots])
     run.assumed.update(A.CTX.assumed)
     return run.finish(
         explanation='For Vector1..4 and Quaternion (and MetricSpace on Point1..3): magnitude = sqrt(magnitude2), distance2 = sum (u_i - v_i)^2 (symmetric as a polynomial), distance = sqrt(distance2), normalize = v/|v|, normalize_to(v,m) = (m/|v|) v with |result|^2 = m^2 and a positive factor for m > 0, project_on(u,v) parallel to v with (u - proj).v = 0, all decided in the Laurent/radical normal form. angle: the result must be acos((u.v)/(|u||v|)) (dimensions other than 2) or atan2(Y, X) with X = k(u.v), X^2+Y^2 = k^2|u|^2|v|^2, k > 0, and in 2-D Y = k perp_dot(u,v) (signed, counter-clockwise), otherwise Y >= 0 by the sign domain; with the range lemmas this gives |u||v|cos = u.v, the ranges and the (a)symmetry.',
